@@ -141,6 +141,12 @@ def add_header_to_file(
                 # Never write through a symlink.
                 return result
 
+    if Path(path).is_dir():
+        # FILE.license is a directory.
+        out.write(_("Error: '{path}' is a directory").format(path=path))
+        out.write("\n")
+        return 1
+
     # A .license file that does not exist yet is only created once its
     # header could be built.
     text = ""
